@@ -131,8 +131,10 @@ fn inner(prop: &str, mut t: Tape, rep: &mut WorldReport) {
         }
     };
     let cluster = t.chance(1, 12);
+    let dusty = !cluster && matches!(prop, "C03" | "C04" | "C02" | "C14") && t.draw(12) == 11;
     let ledger_cfg = LedgerCfg {
-        size: match if cluster { 3 } else { t.weighted(&[10, 3, 1, 2]) } {
+        size: match if dusty { 4 } else if cluster { 3 } else { t.weighted(&[10, 3, 1, 2]) } {
+            4 => 51 + t.index(40),
             0 => 1 + t.index(6),
             1 => 6 + t.index(12),
             2 => 45 + t.index(16),
@@ -140,6 +142,7 @@ fn inner(prop: &str, mut t: Tape, rep: &mut WorldReport) {
             _ => 17 + t.index(33),
         },
         dist: match (profile, t.draw(4)) {
+            _ if dusty => AmountDist::DustAndFew,
             _ if cluster => AmountDist::Cluster(*t.pick(&[1_000_000_000i128, 5_000_000_000, 1 << 32, 20_000_000_000, 1_000_000_000_000])),
             (Profile::Boundary, 0..=2) => AmountDist::Boundary,
             (Profile::Fee, 0..=1) => AmountDist::Boundary,
@@ -149,6 +152,7 @@ fn inner(prop: &str, mut t: Tape, rep: &mut WorldReport) {
         },
         ties: t.chance(1, 3),
         distinct: false,
+        hostile_datums: prop == "C14" && t.draw(8) == 7,
     };
     let (faults, stratum) = draw_faults(&mut t, prop);
     let direct = matches!(prop, "C03" | "C04") && t.chance(2, 3);
